@@ -10,8 +10,9 @@ It also adds what the first round left out: `VerticalCenter`, a title *oracle* f
 `Text` title — spans, tabs, wider than the console — can be plugged in: `Model/FramesTitle.lean`), and
 three more code-variant flags.
 
-Nothing in `Model/Frames.lean` is changed (C01 / C09 / C14 build on it); `Lemmas/FramesStyled.lean` shows
-that erasing the styles of what is defined here gives back exactly those functions.
+Nothing in `Model/Frames.lean` is changed (C01 / C09 / C14 build on it).  (An erasure lemma — erasing the styles of
+what is defined here gives back exactly those functions — was planned; `Lemmas/FramesStyled.lean` holds the
+line-structure and style lemmas, and the two layers are tied by the C08 correspondence, which compares both.)
 -/
 namespace RichModel.Frames
 open RichModel
@@ -45,14 +46,14 @@ structure SVariant where
   base : Variant := {}
   /-- `Console.render_lines(..., style=style)` applies `style` to the rendered segments but pads short lines
   with `style=None` (console.py:925-929 does not hand `style` to `split_and_crop_lines`): the blanks that
-  complete a child's line inside a `Panel(style=…)` are unstyled.  `false` = the proposed repair. -/
+  complete a child's line inside a `Panel(style=…)` are unstyled.  `false` = the repair, fix 63e086e, in /repo now. -/
   linesPadUnstyled : Bool := true
   /-- `Panel` renders its title with `console.render(title_text)` — no options, i.e. at `console.width`
-  (panel.py:147) — instead of at the width it aligned the title to.  `false` = the proposed repair
+  (panel.py:147) — instead of at the width it aligned the title to.  `false` = the repair, fix 0e1edf7, in /repo now
   (`console.options.update(width=width - 4)`; `Console.render` yields nothing below 1). -/
   titleAtConsoleWidth : Bool := true
   /-- `Rule` without a title builds its `Text` with the default `end` (rule.py:62), ignoring `self.end`.
-  `false` = the proposed repair. -/
+  `false` = the repair, fix a442cbd, in /repo now. -/
   ruleNoTitleEnd : Bool := true
 deriving Repr
 
